@@ -13,7 +13,7 @@
      Handle     = the body of that loop for a finished message / ping, pong / close
      HookDone   = the code after "yield WebsocketMessageHook": Fragmentizer(message.content), then the rest of the
                   loop, then Layer.__continue's drain of the queue
-     Fragmentize= Fragmentizer.__call__ and .msg (byte offsets; text pieces decoded with errors="replace")     *)
+     Fragmentize= Fragmentizer.__call__, ._end and .msg (cuts moved back to character starts for text)          *)
 EXTENDS Mon_WsRelay, TLC
 CONSTANTS Msgs,       \* sequence of message templates [typ, chars, frames]; frames = payload lengths, sum = bytes
           Edits,      \* sequence of contents an addon may write
@@ -70,8 +70,6 @@ Completed(cs, o, a, b) ==
   (IF e > a /\ e <= b THEN <<Head(cs)>> ELSE <<>>) \o Completed(Tail(cs), e, a, b)
 RECURSIVE Offs(_, _)
 Offs(ls, o) == IF ls = <<>> THEN <<>> ELSE <<o + Head(ls)>> \o Offs(Tail(ls), o + Head(ls))     \* end offsets
-RECURSIVE Chunks(_)
-Chunks(n) == IF n > FS THEN <<FS>> \o Chunks(n - FS) ELSE <<n>>
 RECURSIVE Concat(_)
 Concat(ss) == IF ss = <<>> THEN <<>> ELSE Head(ss) \o Concat(Tail(ss))
 \* a frame boundary inside a multi-byte character
@@ -79,14 +77,27 @@ RECURSIVE CharEnds(_, _)
 CharEnds(cs, o) == IF cs = <<>> THEN {0} ELSE {o + W(Head(cs))} \cup CharEnds(Tail(cs), o + W(Head(cs)))
 Split(t) == t.typ = "text" /\ \E i \in 1..(Len(t.frames) - 1) : Offs(t.frames, 0)[i] \notin CharEnds(t.chars, 0)
 
+\* Fragmentizer._end: a cut of a text message is moved back to the start of the UTF-8 sequence it would split
+End(typ, cs, e) == IF typ # "text" \/ e \in CharEnds(cs, 0) \/ e >= Bytes(cs) THEN e
+                   ELSE MaxOf({ b \in CharEnds(cs, 0) : b < e })
+\* end offsets of the pieces: same-length path (old lengths, applied from the moved offset) / re-chunk path
+RECURSIVE KeepCuts(_, _, _, _), ChunkCuts(_, _, _)
+KeepCuts(typ, cs, lens, off) ==
+  IF Len(lens) <= 1 THEN <<Bytes(cs)>>
+  ELSE LET e == Max2(off, End(typ, cs, off + Head(lens))) IN <<e>> \o KeepCuts(typ, cs, Tail(lens), e)
+ChunkCuts(typ, cs, off) ==
+  IF off < Bytes(cs) - FS
+  THEN LET e0 == End(typ, cs, off + FS)
+           e  == IF e0 <= off THEN off + FS ELSE e0
+       IN <<e>> \o ChunkCuts(typ, cs, e)
+  ELSE <<Bytes(cs)>>
 \* Fragmentizer(fragments = fl, is_text)(content): <<delivered content, lengths of the frames on the wire>>
 Fragmentize(typ, content, fl) ==
   LET n    == Bytes(content)
-      lens == IF n = Sum(fl) /\ fl # <<>> THEN fl ELSE Chunks(n)
-      ends == Offs(lens, 0)
-      pcs  == [i \in 1..Len(lens) |-> Piece(content, 0, IF i = 1 THEN 0 ELSE ends[i - 1], ends[i])]
+      ends == IF n = Sum(fl) /\ fl # <<>> THEN KeepCuts(typ, content, fl, 0) ELSE ChunkCuts(typ, content, 0)
+      pcs  == [i \in 1..Len(ends) |-> Piece(content, 0, IF i = 1 THEN 0 ELSE ends[i - 1], ends[i])]
   IN IF typ = "text" THEN <<Concat(pcs), [i \in 1..Len(pcs) |-> Bytes(pcs[i])]>>
-     ELSE <<content, lens>>
+     ELSE <<content, [i \in 1..Len(ends) |-> ends[i] - (IF i = 1 THEN 0 ELSE ends[i - 1])]>>
 
 \* ---- ws events and their handling -------------------------------------------------------------------------
 Item(k, d, typ, c, fl, inj, code) == [k |-> k, d |-> d, typ |-> typ, c |-> c, fl |-> fl, inj |-> inj, code |-> code]
